@@ -25,6 +25,21 @@ fn exec_line(line: &str) -> String {
         exec_iter::run_case(line)
     } else if line.starts_with("W ") {
         exec_write::run_case(line)
+    } else if line.starts_with("Q ") {
+        // `Q <policy> <capacity>`: one of the crate's built-in policies asked directly
+        let t: Vec<&str> = line.trim().split(' ').collect();
+        match (t.get(1).and_then(|p| util::PolDesc::parse(p)), t.get(2).and_then(|c| c.parse::<usize>().ok())) {
+            (Some(p), Some(c)) => {
+                use seq_io::policy::BufPolicy;
+                let log: util::Log = std::rc::Rc::new(std::cell::RefCell::new(vec![]));
+                match std::panic::catch_unwind(std::panic::AssertUnwindSafe(|| util::DynPolicy::new(p, log).grow_to(c))) {
+                    Ok(Some(n)) => n.to_string(),
+                    Ok(None) => "x".to_string(),
+                    Err(_) => "PANIC".to_string(),
+                }
+            }
+            _ => "bad-case".to_string(),
+        }
     } else if line.starts_with("X ") || line.starts_with("Y ") || line.starts_with("Z ") {
         if HANGS.load(std::sync::atomic::Ordering::SeqCst) >= 3 {
             return "- SKIPPED".to_string();
